@@ -40,6 +40,7 @@ def marker_nodes(ctx, fn):
                 var = n.ast.targets[0].id
     if var is None:
         raise AnalysisError("C11", "marker path `Path(self._output) / self.LOCK_FILENAME` not found in HpcSubmitter.run")
+    ctx._marker_path_expr = [n.ast.value for n in cfg.nodes if n.kind == "stmt" and isinstance(n.ast, ast.Assign) and isinstance(n.ast.targets[0], ast.Name) and n.ast.targets[0].id == var]
     sets, clears, tests = [], [], []
     for n in cfg.nodes:
         for c in cfg.calls_at(n):
@@ -60,6 +61,12 @@ def marker_nodes(ctx, fn):
 @rule(P, "C11.1", "T1", "the marker of a crashed round is tested, and the round refused, before the marker is set or anything handed off", min_obligations=3)
 def c11_1(ctx, r):
     fn = ctx.fn(RUN, "C11.1")
+    marker_nodes(ctx, fn)
+    for e in getattr(ctx, "_marker_path_expr", []):
+        calls = sorted({ctx.src(c.func) for c in ast.walk(e) if isinstance(c, ast.Call)} - {"Path", "os.path.join", "str", "pathlib.Path"})
+        r.check(not calls, "the marker's path is the same for every process (output directory + constant name)", key_of(fn, f"marker path depends on {calls}"), fn.loc(e),
+                f"the crashed-round marker is `{ctx.src(e)}`: its name depends on {calls}, so a round started on another node (or at another time) does not see the marker a failed round left - "
+                "after an ordinary exception the role is released in `finally`, the marker is the only guard, and the other node resubmits the unrecorded batch", "later submitter invocations either continue consistently or refuse to act")
     tests, sets, clears, var = marker_nodes(ctx, fn)
     if not sets:
         r.bad(key_of(fn, "marker never set"), fn.loc(), "HpcSubmitter.run never creates submitter.lock: a round killed between sbatch and the status write is indistinguishable from a clean one and its batches are submitted again",
@@ -312,3 +319,26 @@ def c11_9(ctx, r):
     from .c10 import _check_wrapper
 
     _check_wrapper(ctx, r, ctx.fn("Cluster._do_action_under_lock_internal", "C11.9"), "C11.9")
+
+
+@rule(P, "C11.10", "T4", "local mode: the cluster files are removed on every exit of the submission, also a failing one (they are what lets a later submitter act)", min_obligations=1)
+def c11_10(ctx, r):
+    """In local mode the jobs are run by the submitting process itself; the cluster files it created are unused and are
+    deleted so that a later `try-submit-jobs` finds nothing to promote on.  If an exception skips the deletion, that later
+    command is promoted on the leftover state (every job still 'not submitted') and starts all jobs again."""
+    fn = ctx.fn("JobSubmitter.run_submit_jobs", "C11.10")
+    dels = ctx.sites(fn, short="Cluster.delete_files_internal")
+    if not dels:
+        r.bad(key_of(fn, "local cluster files never deleted"), fn.loc(), "run_submit_jobs never deletes the cluster files of a local run", "no job is ... started twice")
+        return
+    from ..lib import in_try_with_finally
+
+    def deletes(st):
+        return isinstance(st, ast.Call) and isinstance(st.func, ast.Attribute) and st.func.attr == "delete_files_internal"
+
+    for s9 in ctx.some_sites(fn, "C11.10", short="JobSubmitter.submit_jobs"):
+        sn = s9.node
+        escaped = not in_try_with_finally(ctx, fn, sn, deletes)
+        r.check(not escaped, "a failing local run still removes the cluster files", key_of(fn, "local cluster files survive a failed run"), fn.loc(sn),
+                "an exception out of mgr.submit_jobs() leaves run_submit_jobs without cluster.delete_files_internal() in local mode: a later `jade try-submit-jobs <output>` is promoted on the leftover "
+                "cluster state and JobRunner starts every job again", "no job is handed to the HPC twice or started twice")
